@@ -5,6 +5,7 @@ package eni
 import (
 	"context"
 	"fmt"
+	"runtime"
 	"net/netip"
 	"os"
 	"sort"
@@ -676,6 +677,62 @@ func (d *driver) step(st vt.M) {
 			res, err := d.s.mgr.Allocate(ctx, &daemon.CNI{PodID: podName(p)}, &AllocRequest{ResourceRequests: []ResourceRequest{req}})
 			d.results <- allocRes{r: r, p: p, res: res, err: err}
 		}()
+	case "direct_sync":
+		// a forced schedule: the balancer runs in the gap between Local.Allocate returning (direct path) and its commit
+		// goroutine taking the lock. The interface is offered the request directly (what Manager.Allocate does), the
+		// balancer is called synchronously right after, on one P so that the commit goroutine cannot run in between.
+		p := vt.Int(st["p"])
+		if d.syncBusy {
+			select {
+			case <-d.syncDone:
+				d.syncBusy = false
+			case <-time.After(10 * time.Second):
+				return
+			}
+		}
+		if d.podBusy(p) || d.holds[p] != nil || d.nextReq >= d.maxReq {
+			return
+		}
+		d.nextReq++
+		r := d.nextReq
+		d.w.Emit(vt.M{"ev": "alloc_call", "r": r, "pod": p})
+		ctx, cancel := context.WithCancel(context.Background())
+		old := runtime.GOMAXPROCS(1)
+		var ch chan *AllocResp
+		for _, l := range d.s.locals {
+			if c, _ := l.Allocate(ctx, &daemon.CNI{PodID: podName(p)}, NewLocalIPRequest()); c != nil {
+				ch = c
+				break
+			}
+		}
+		if ch != nil {
+			d.w.Emit(vt.M{"ev": "syncpool_call"})
+			sctx, scancel := context.WithTimeout(d.s.ctx, 3*time.Second)
+			d.s.mgr.syncPool(sctx)
+			scancel()
+			d.w.Emit(vt.M{"ev": "syncpool_ret"})
+		}
+		runtime.GOMAXPROCS(old)
+		var res NetworkResources
+		var err error = fmt.Errorf("no eni can handle the allocation")
+		if ch != nil {
+			select {
+			case resp, ok := <-ch:
+				if ok && resp != nil && resp.Err == nil {
+					res, err = resp.NetworkConfigs, nil
+				} else {
+					err = fmt.Errorf("closed")
+				}
+			case <-time.After(5 * time.Second):
+				cancel()
+				if resp, ok := <-ch; ok && resp != nil {
+					res = resp.NetworkConfigs
+				}
+				err = fmt.Errorf("timeout")
+			}
+		}
+		cancel()
+		d.onResult(allocRes{r: r, p: p, res: res, err: err})
 	case "cancel":
 		// cancel the oldest open request of that pod (or any)
 		p := vt.Int(st["p"])
@@ -1006,6 +1063,11 @@ func TestVerifPool(t *testing.T) {
 					vt.M{"a": "release", "p": q}, vt.M{"a": "alloc", "p": q}, vt.M{"a": "syncpool"}, vt.M{"a": "wait", "ms": 20}, vt.M{"a": "release", "p": 1 + rng.Intn(4)},
 					vt.M{"a": "syncpool"}, vt.M{"a": "alloc", "p": 4}, vt.M{"a": "settle"})
 			}
+			// exactly one idle address (the others are held), a new pod takes it on the direct path, the balancer runs in the gap
+			sc = append(sc, vt.M{"a": "uninhibit"}, vt.M{"a": "alloc", "p": 1}, vt.M{"a": "alloc", "p": 2}, vt.M{"a": "alloc", "p": 3}, vt.M{"a": "settle"},
+				vt.M{"a": "release", "p": 3}, vt.M{"a": "settle"}, vt.M{"a": "direct_sync", "p": 4}, vt.M{"a": "settle"},
+				vt.M{"a": "release", "p": 2}, vt.M{"a": "settle"}, vt.M{"a": "direct_sync", "p": 3}, vt.M{"a": "settle"},
+				vt.M{"a": "release", "p": 4}, vt.M{"a": "settle"}, vt.M{"a": "direct_sync", "p": 2}, vt.M{"a": "settle"})
 			// cancellations racing with the commit of a first ADD while addresses are idle
 			sc = append(sc, vt.M{"a": "uninhibit"}, vt.M{"a": "settle"})
 			for j := 0; j < 4; j++ {
@@ -1054,7 +1116,7 @@ func TestVerifPool(t *testing.T) {
 			return time.Duration(jr.Intn(3)) * 10 * time.Millisecond
 		}
 		d := &driver{s: sys, w: w, open: map[int]context.CancelFunc{}, openPod: map[int]int{}, results: make(chan allocRes, 64),
-			holds: map[int]*held{}, last: map[int]*held{}, maxReq: vt.EnvInt("VERIF_MAXREQ", 12)}
+			holds: map[int]*held{}, last: map[int]*held{}, maxReq: vt.EnvInt("VERIF_MAXREQ", 36)}
 		dbg := os.Getenv("VERIF_DEBUG") != ""
 		for i, st := range sc[1:] {
 			d.step(st)
